@@ -55,7 +55,7 @@ func init() {
 			}
 			return 60000
 		},
-		ChildSetup:    setup,
+		ChildSetup: setup,
 		ChildTeardown: func(c *fw.Ctx) {
 			if e, ok := c.Store["env"].(*env); ok {
 				e.node.Close()
@@ -452,7 +452,7 @@ func run(c *fw.Ctx, idx int) {
 				fail("C04/pin/not-stored", "successful pin left no entry", pj(opts))
 				continue
 			}
-			if st.Type != api.DataType || st.MaxDepth != opts.Mode.ToPinDepth() || st.Reference != nil {
+			if st.Type != api.DataType || st.MaxDepth != mon.DepthOf(opts.Mode) || st.Reference != nil {
 				fail("C04/pin/stored-shape", fmt.Sprintf("stored entry has type %s depth %d", st.Type, st.MaxDepth), pj(st))
 			}
 			if d := optsMatch(opts, defs[0], defs[1], st); d != "" {
